@@ -53,10 +53,32 @@ Renamed(st, kind2, s, nm) ==
                                  ELSE st.t[i]]]
 EmitN(k, st) == CSVWrite("%1$s", <<ToJson([kind |-> k, sub |-> "names", toks |-> st.t, want |-> st.a])>>, IOEnv.CASE_FILE)
 
+\* duration literals in every position: fractional values of the next unit ( 1500ms is not 1.5s for the parser ), the micro
+\* sign, sub-millisecond values, compound spellings - as <<spelling, nanoseconds>>
+TrickyDurs == {<<"1500ms", "1500000000">>, <<"750u", "750000">>, <<"1m1ms", "60001000000">>, <<"1500{MICRO}", "1500000">>, <<"90m", "5400000000000">>,
+               <<"36h", "129600000000000">>, <<"8d", "691200000000000">>, <<"1ns", "1">>, <<"1001ms", "1001000000">>, <<"61s", "61000000000">>}
+DurSpellings == {"1ns", "2u", "3{MICRO}", "4ms", "5s", "10s", "1m", "2m", "90s", "1h", "2h", "3h", "4h", "1h30m", "1d", "2d", "1w", "2w", "1500ms"}
+DurReplaceable(st, s) == LET I == Positions(st.t, "dur", s) IN
+  /\ s \in DurSpellings
+  /\ \A i \in I : ~(i > 1 /\ st.t[i - 1].s \in {"-", "+"} /\ st.t[i - 1].t = "p" /\ st.t[i].g = "T")
+  /\ CountAtoms(st.a, NsOf(s)) = Cardinality(I)
+RenamedDur(st, s, d) ==
+  [a |-> SubstAtoms(st.a, NsOf(s), d[2]),
+   t |-> [i \in 1..Len(st.t) |-> IF st.t[i].t = "dur" /\ st.t[i].s = s THEN [st.t[i] EXCEPT !.s = d[1]] ELSE st.t[i]]]
+
+\* a continuous query is only a statement of the language when  FOR >= EVERY  and  FOR >= the GROUP BY time() interval
+\* (witnesses: EVERY 10s, FOR 2m, time(1m)): the replacement keeps that
+CqDurOK(k, s, d) == IF k # "cq" THEN TRUE
+                    ELSE CASE s = "10s" -> d[1] \in {"1500ms", "750u", "1500{MICRO}", "1ns", "1001ms", "61s"}
+                           [] s = "2m"  -> d[1] \in {"90m", "36h", "8d"}
+                           [] s = "1m"  -> d[1] \in {"61s", "1001ms", "1500ms", "750u"}
+                           [] OTHER -> FALSE
+
 NStep == /\ ~done
          /\ \A st \in Stmts(kind, sub) :
               /\ \A s \in Values(st, "id") : IF Replaceable(st, "id", s) THEN \A nm \in TrickyNames : EmitN(kind, Renamed(st, "id", s, nm)) ELSE TRUE
               /\ \A s \in Values(st, "str") : IF Replaceable(st, "str", s) THEN \A nm \in TrickyStrings : EmitN(kind, Renamed(st, "str", s, nm)) ELSE TRUE
+              /\ \A s \in Values(st, "dur") : IF DurReplaceable(st, s) THEN \A d \in {x \in TrickyDurs : CqDurOK(kind, s, x)} : EmitN(kind, RenamedDur(st, s, d)) ELSE TRUE
          /\ done' = TRUE /\ UNCHANGED <<kind, sub>>
 NSpec == Init /\ [][NStep]_vars
 
